@@ -86,7 +86,7 @@ def oracleLine (f : Frame) (k : Nat) (full : Bool) : String :=
     else ft.col ++ "?=" ++ tvStr ft.val
   let stack := "[" ++ ",".intercalate (layers.map fun l => toString l.1) ++ "]"
   let sizes := "[" ++ ",".intercalate (layers.map fun l => toString l.2.1) ++ "]"
-  let layerItems := if full then ["LayerStack=" ++ stack, "LayerSize=" ++ sizes] else ["LayerStack^=" ++ stack, "LayerSize~"]
+  let layerItems := if full then ["LayerStack=" ++ stack, "LayerSize=" ++ sizes] else ["LayerStack^=" ++ stack, "LayerSize%=" ++ sizes]
   "@msg 0 " ++ " ".intercalate (items ++ layerItems)
 
 end Goflow.Gen.Frame
